@@ -13,6 +13,8 @@ fn one(drv: &mut Driver, rep: &mut Report, stream: &str, a: [u8; 16], b: [u8; 16
     let mut it = ans.split(' ');
     let model = it.next().unwrap_or("").to_string();
     let spec = it.next().unwrap_or("").to_string();
+    // third field: the literal byte-array model `Gf.mulBytes` (proved equal to the Nat-level model: C19.mulBytes_eq)
+    let bytes_model = it.next().unwrap_or("").to_string();
     let hi = |x: &[u8; 16]| 127 - u128::from_le_bytes(*x).leading_zeros().min(127);
     if nontrivial && hi(&a) + hi(&b) >= 128 { rep.hist("needs_reduction"); } else { rep.hist("no_reduction"); }
     if idx < 2 { rep.sample(json!({"stream": stream, "request": req, "impl": got, "model": model, "spec": spec})); }
@@ -21,9 +23,9 @@ fn one(drv: &mut Driver, rep: &mut Report, stream: &str, a: [u8; 16], b: [u8; 16
             model_out: spec.clone(), key: "gf128:product!=spec".into(),
             what: "implementation product differs from the GF(2)[x]/(x^128+x^7+x^2+x+1) product".into() });
     }
-    if got != model {
-        rep.diverge(Failure { stream: stream.into(), index: idx, request: vec![req], impl_out: got, model_out: model,
-            key: "gf128:model".into(), what: "Lean model Gf.mul and implementation disagree".into() });
+    if got != model || got != bytes_model {
+        rep.diverge(Failure { stream: stream.into(), index: idx, request: vec![req], impl_out: got, model_out: format!("{model} {bytes_model}"),
+            key: "gf128:model".into(), what: "Lean models (Gf.mul on integers / Gf.mulBytes on byte arrays) and implementation disagree".into() });
     }
 }
 
